@@ -203,3 +203,64 @@ package workers
 //@   requires p.workerCtxCancel != nil
 //@   dyncall workerCtxCancel : cancelFunc
 //@   modifies nothing
+//@
+//@ pred wfStates(pool []*iterationState) = (forall a int :: 0 <= a && a < len(pool) ==> wfState(pool[a])) &&
+//@     (forall a int, b int :: 0 <= a && a < b && b < len(pool) ==> pool[a] != pool[b] && pool[a].t != pool[b].t)
+//@ pred wfTriggerPool(p *TriggerPool) = p != nil && wfManager(p.manager) && p.numWorkers == len(p.iterationStatePool) &&
+//@     wfStates(p.iterationStatePool) && p.jobsAvailableCond != nil
+//@ pred wfContinuousPool(p *ContinuousPool) = p != nil && wfManager(p.manager) && p.numWorkers == len(p.iterationStatePool) &&
+//@     wfStates(p.iterationStatePool)
+//@
+//@ func newTriggerPool
+//@   props C04 C14
+//@   requires numWorkers >= 0 && wfManager(m)
+//@   ensures [wf] wfTriggerPool(result) && result.numWorkers == numWorkers && result.manager == m && fresh(result)
+//@   ensures [idle] result.jobsToExecute.num == 0 && !result.stopWorkers
+//@
+//@ func newContinuousPool
+//@   props C04 C14
+//@   requires numWorkers >= 0 && wfManager(m)
+//@   ensures [wf] wfContinuousPool(result) && result.numWorkers == numWorkers && result.manager == m && fresh(result)
+//@   ensures [idle] !result.stopWorkers
+//@
+//@ func (*PoolManager).NewTriggerPool
+//@   props C04 C14
+//@   requires numWorkers >= 0 && wfManager(m)
+//@   ensures wfTriggerPool(result) && result.numWorkers == numWorkers && result.manager == m
+//@
+//@ func (*PoolManager).NewContinuousPool
+//@   props C04 C14
+//@   requires numWorkers >= 0 && wfManager(m)
+//@   ensures wfContinuousPool(result) && result.numWorkers == numWorkers && result.manager == m
+//@
+//@ func (*TriggerPool).Start
+//@   props C04 C05
+//@   requires wfTriggerPool(p)
+//@   ghost at entry : Gspawned = 0 ; Gwg = 0
+//@   ghost before call (*WaitGroup).Add #0 : Gwg = Gwg + arg1
+//@   ghost before call (*TriggerPool).run : assert [own-state] arg1 == p.iterationStatePool[rangeindex + 1] ; assert [same-pool] arg0 == p ; Gspawned = Gspawned + 1
+//@   loop 0 invariant -1 <= rangeindex && rangeindex < len(p.iterationStatePool) && Gspawned == rangeindex + 1 && Gwg == p.numWorkers && p.workerCtxCancel != nil && wfTriggerPool(p)
+//@   modifies p.workerCtxCancel, Gspawned, Gwg
+//@   ensures [spawned] Gspawned == p.numWorkers && Gwg == p.numWorkers
+//@   ensures [cancel] p.workerCtxCancel != nil && result != nil
+//@
+//@ func (*ContinuousPool).Start
+//@   props C04 C05
+//@   requires wfContinuousPool(p)
+//@   ghost at entry : Gspawned = 0 ; Gwg = 0
+//@   ghost before call (*WaitGroup).Add #1 : Gwg = Gwg + arg1
+//@   ghost before call (*ContinuousPool).startWorker : assert [own-state] arg1 == p.iterationStatePool[rangeindex + 1] ; assert [same-pool] arg0 == p ; Gspawned = Gspawned + 1
+//@   loop 0 invariant -1 <= rangeindex && rangeindex < len(p.iterationStatePool) && Gspawned == rangeindex + 1 && Gwg == p.numWorkers && p.workerCtxCancel != nil && wfContinuousPool(p)
+//@   modifies p.workerCtxCancel, Gspawned, Gwg
+//@   ensures [spawned] Gspawned == p.numWorkers && Gwg == p.numWorkers
+//@   ensures [cancel] p.workerCtxCancel != nil
+//@
+//@ func (*TriggerPool).Trigger
+//@   props C09 C02
+//@   requires wfTriggerPool(p) && ctx != nil
+//@   ghost before call (*TriggerPool).sendJobsForExecution : assert [unchanged] arg1 == numJobs && arg0 == p
+//@
+//@ func (*TriggerPool).sendJobsForExecution
+//@   props C02 C05
+//@   requires wfTriggerPool(p)
+//@   loop 0 invariant wfTriggerPool(p)
